@@ -107,8 +107,14 @@ def one_case(seed, steps):
             for key in sorted(q, key=lambda k: -k.count('/')):
                 rec = q[key]; taint_of[key] = hist[j]['recipes'].get(rec['recipe'], {}).get('relocatable') is False or any(taint_of.get(key + '/' + d, False) for d in rec['deps'])
             if 'r0' not in aD: return {'kind': 'package-missing-after-download-build', 'package': 'r0', 'history': log}, log
+            # only what this invocation built or downloaded is current: below a downloaded package nothing is (re)made, and
+            # directories left from earlier states of the history stay as they are
+            made = {'r0'}
+            for l in out.split('\n'):
+                mm = re.match(r'^\s*(PACKAGE|DOWNLOAD)\s+dev/dist/([^/]+)/', l)
+                if mm and 'skipped' not in l and 'not found' not in l: made.add(mm.group(2))
             for name in aL:
-                if name not in aD: continue              # below a downloaded package nothing needs to exist locally
+                if name not in aD or name.split('/')[-1] not in made: continue
                 path_tainted = any(taint_of.get(k) for k in q if k.split('/')[-1] == name.split('/')[-1])
                 if not path_tainted and aD[name][1] != aL[name][1]:
                     return {'kind': 'download-build-differs-from-local-build', 'package': name, 'mode': mode, 'state': j, 'host': host, 'history': log}, log
